@@ -196,7 +196,13 @@ def find_witnesses(ctx, extra, k=1, style="dyadic"):
                 eng.s.add(c)
             # constants of moderate size first: at 1e16 float arithmetic absorbs everything else, which is outside
             # any meaningful reading of the properties (replays of passing paths are only made with bounded witnesses)
-            bound = [z3.And(z >= -WITNESS_BOUND, z <= WITNESS_BOUND) for z in ctx.consts.values()]
+            wb = eng.path_state.get("witness_bound") or WITNESS_BOUND
+            bound = [z3.And(z >= -wb, z <= wb) for z in ctx.consts.values()]
+            wmin = eng.path_state.get("witness_min_abs")
+            if wmin:
+                # harnesses whose replays multiply and divide the constants (C09's numerals): keep magnitudes moderate so
+                # that float cancellation stays far below the replay tolerances
+                bound += [z3.Or(z == 0, z >= E.q(wmin), z <= -E.q(wmin)) for z in ctx.consts.values()]
             level = "basic" if eng.lp_basic_facts else "free"
             eng.s.push()
             for c in list(eng.lp_basic_facts) + bound:
@@ -414,6 +420,8 @@ def sym_worker(args):
             shims.NUMERALS.clear()
             shims.FOURG.clear()
             eng.path_state["second_solver_rate"] = opts.get("second_solver_rate", 0.0)
+            eng.path_state["witness_bound"] = opts.get("witness_bound")
+            eng.path_state["witness_min_abs"] = opts.get("witness_min_abs")
             eng.path_state["job_salt"] = repr(job)
             ctx = Ctx(eng)
             prof = None
